@@ -3,6 +3,9 @@ package daemon
 import (
 	"context"
 	"encoding/json"
+	"errors"
+	"fmt"
+	"net/netip"
 	"testing"
 
 	"github.com/aliyun/alibaba-cloud-sdk-go/services/ecs"
@@ -29,6 +32,9 @@ import (
 //	  annotation (k8s.NewK8S itself needs an API server)
 //	b.initInstanceLimit()   (real ECS limit provider, annotation path; real checkInstance)
 //	getPoolConfig(b.config, b.daemonMode, b.limit)                  (setupENIManager)
+//	initTrunk(b.config, poolConfig, k8s, factory) when trunking is still enabled
+//	  (setupENIManager), over an in-memory factory that holds a drawn population of
+//	  attached interfaces (secondary / ERDMA / trunk; node full or with free slots)
 //
 // so that the mode each step sees is the one the daemon hands it, not one the harness
 // chose.
@@ -45,6 +51,9 @@ import (
 //	           (MaxIPPerENI > v6: every pod needs one of each family);
 //	           trunking off when the member limit is 0;  ERDMA off (and capacity 0)
 //	           when the type has no ERI
+//	trunk:     interfaces attached before + created by initTrunk <= slots; when every
+//	           slot is taken and none of them is a trunk, trunking (member capacity) ends
+//	           up disabled
 type c19PoolScenario struct {
 	// instance type (values an instance-type description can carry: >= 1 interface,
 	// >= 1 IPv4 address per interface)
@@ -69,6 +78,12 @@ type c19PoolScenario struct {
 
 	OSERDMA   bool   `json:"os_erdma"`        // node capability "erdma" present
 	Exclusive string `json:"exclusive_label"` // exclusive-ENI label on the k8s node ("" = absent)
+
+	// interfaces already attached when the daemon starts (never more than the type can
+	// attach): 0 secondary, 1 ERDMA, 2 trunk
+	Attached   []int `json:"attached"`
+	PreferENI  int   `json:"prefer_eni"`  // trunk-on annotation names eni-<n> (-1 = no annotation; may dangle)
+	CreateFail int   `json:"create_fail"` // CreateNetworkInterface: 0 ok, 1 fails without effect, 2 fails after the interface exists
 }
 
 func c19GenPool(t *rapid.T) c19PoolScenario {
@@ -129,6 +144,28 @@ func c19GenPool(t *rapid.T) c19PoolScenario {
 	s.IPAMCRD = rapid.IntRange(0, 4).Draw(t, "crd") == 4
 	s.OSERDMA = rapid.IntRange(0, 3).Draw(t, "osERDMA") > 0
 	s.Exclusive = rapid.SampledFrom([]string{"", "", "default", "eniOnly", "eniOnly", "ENIONLY"}).Draw(t, "exclusive")
+
+	// attached population: empty, full, one slot free, or anything in between
+	n := 0
+	switch rapid.IntRange(0, 3).Draw(t, "attachedClass") {
+	case 1:
+		n = slots
+	case 2:
+		n = slots - 1
+	case 3:
+		n = rapid.IntRange(0, slots).Draw(t, "attachedN")
+	}
+	if n < 0 {
+		n = 0
+	}
+	for i := 0; i < n; i++ {
+		s.Attached = append(s.Attached, rapid.SampledFrom([]int{0, 0, 1}).Draw(t, "eniKind"))
+	}
+	if n > 0 && rapid.SampledFrom([]bool{false, false, false, true}).Draw(t, "hasTrunk") {
+		s.Attached[rapid.IntRange(0, n-1).Draw(t, "trunkAt")] = 2
+	}
+	s.PreferENI = rapid.SampledFrom([]int{-1, -1, 0, 1, 40}).Draw(t, "preferENI")
+	s.CreateFail = rapid.SampledFrom([]int{0, 0, 0, 0, 1, 2}).Draw(t, "createFail")
 	return s
 }
 
@@ -158,10 +195,13 @@ func (s c19PoolScenario) node(c *vt.Ctx) *corev1.Node {
 	if s.Exclusive != "" {
 		n.Labels[terwayTypes.ExclusiveENIModeLabel] = s.Exclusive
 	}
+	if s.PreferENI >= 0 {
+		n.Annotations[terwayTypes.TrunkOn] = fmt.Sprintf("eni-%d", s.PreferENI)
+	}
 	return n
 }
 
-// c19K8s answers Node() only; any other call of the k8s.Kubernetes interface would be a
+// c19K8s answers Node() and GetTrunkID() only; any other call of the k8s.Kubernetes interface would be a
 // harness bug (nil embedded interface -> panic -> reported).
 type c19K8s struct {
 	k8s.Kubernetes
@@ -169,6 +209,61 @@ type c19K8s struct {
 }
 
 func (k *c19K8s) Node() *corev1.Node { return k.node }
+
+func (k *c19K8s) GetTrunkID() string { return k.node.Annotations[terwayTypes.TrunkOn] }
+
+// c19Factory is an in-memory factory.Factory: it only remembers which interfaces are
+// attached. Address calls would be a harness bug here and fail loudly.
+type c19Factory struct {
+	attached   []*daemon.ENI
+	created    []string
+	deleted    []string
+	createFail int
+}
+
+func (f *c19Factory) CreateNetworkInterface(_, _ int, eniType string) (*daemon.ENI, []netip.Addr, []netip.Addr, error) {
+	if f.createFail == 1 {
+		return nil, nil, nil, errors.New("c19: create refused")
+	}
+	ni := &daemon.ENI{ID: fmt.Sprintf("eni-new-%d", len(f.created)), Trunk: eniType == "trunk", ERdma: eniType == "erdma"}
+	f.attached = append(f.attached, ni)
+	f.created = append(f.created, eniType)
+	if f.createFail == 2 {
+		return ni, nil, nil, errors.New("c19: create failed after the interface was attached")
+	}
+	return ni, nil, nil, nil
+}
+
+func (f *c19Factory) DeleteNetworkInterface(id string) error {
+	for i, ni := range f.attached {
+		if ni.ID == id {
+			f.attached = append(f.attached[:i:i], f.attached[i+1:]...)
+			f.deleted = append(f.deleted, id)
+			return nil
+		}
+	}
+	return fmt.Errorf("c19: no interface %s", id)
+}
+
+func (f *c19Factory) GetAttachedNetworkInterface(string) ([]*daemon.ENI, error) {
+	return append([]*daemon.ENI(nil), f.attached...), nil
+}
+
+func (f *c19Factory) AssignNIPv4(string, int, string) ([]netip.Addr, error) {
+	panic("c19: unexpected AssignNIPv4")
+}
+func (f *c19Factory) AssignNIPv6(string, int, string) ([]netip.Addr, error) {
+	panic("c19: unexpected AssignNIPv6")
+}
+func (f *c19Factory) UnAssignNIPv4(string, []netip.Addr, string) error {
+	panic("c19: unexpected UnAssignNIPv4")
+}
+func (f *c19Factory) UnAssignNIPv6(string, []netip.Addr, string) error {
+	panic("c19: unexpected UnAssignNIPv6")
+}
+func (f *c19Factory) LoadNetworkInterface(string) ([]netip.Addr, []netip.Addr, error) {
+	panic("c19: unexpected LoadNetworkInterface")
+}
 
 // c19Meta is the instance metadata service.
 type c19Meta struct{}
@@ -225,6 +320,14 @@ func (s c19PoolScenario) config(c *vt.Ctx, defaultRatio bool) *daemon.Config {
 type c19PoolOut struct {
 	V4On, V6On, Trunking, ERDMA bool
 	Pool                        daemon.PoolConfig
+
+	// initTrunk (only run when trunking survived checkInstance)
+	TrunkRan     bool
+	TrunkID      string
+	TrunkErr     string
+	Held         int      // interfaces attached after initTrunk
+	Created      []string // interface types initTrunk created
+	TrunkPresent bool     // a trunk interface was attached before the daemon started
 }
 
 func (s c19PoolScenario) compute(c *vt.Ctx, defaultRatio bool) c19PoolOut {
@@ -259,8 +362,26 @@ func (s c19PoolScenario) compute(c *vt.Ctx, defaultRatio bool) c19PoolOut {
 
 	out := c19PoolOut{}
 	out.V4On, out.V6On = b.service.enableIPv4, b.service.enableIPv6
-	out.Trunking, out.ERDMA = b.config.EnableENITrunking, b.config.EnableERDMA
 	out.Pool = *pc
+
+	// setupENIManager: make sure the trunk interface exists
+	f := &c19Factory{createFail: s.CreateFail}
+	for i, kind := range s.Attached {
+		ni := &daemon.ENI{ID: fmt.Sprintf("eni-%d", i), ERdma: kind == 1, Trunk: kind == 2}
+		out.TrunkPresent = out.TrunkPresent || ni.Trunk
+		f.attached = append(f.attached, ni)
+	}
+	if b.config.EnableENITrunking {
+		out.TrunkRan = true
+		id, err := initTrunk(b.config, pc, b.service.k8s, f)
+		out.TrunkID = id
+		if err != nil {
+			// the daemon refuses to start; nothing is advertised
+			out.TrunkErr = err.Error()
+		}
+	}
+	out.Held, out.Created = len(f.attached), f.created
+	out.Trunking, out.ERDMA = b.config.EnableENITrunking, b.config.EnableERDMA
 	return out
 }
 
@@ -368,6 +489,37 @@ func c19RunPool(c *vt.Ctx, s c19PoolScenario) {
 	} else {
 		c.Label("ratio:reduced")
 	}
+	switch {
+	case len(s.Attached) >= slots:
+		c.Label("attached:full")
+	case len(s.Attached) == 0:
+		c.Label("attached:none")
+	default:
+		c.Label("attached:some-free")
+	}
+	if base.TrunkRan {
+		hasERDMA := false
+		for _, k := range s.Attached {
+			hasERDMA = hasERDMA || k == 1
+		}
+		switch {
+		case base.TrunkPresent:
+			c.Label("trunk:already-attached")
+		case len(s.Attached) >= slots && hasERDMA:
+			c.Label("trunk:asked-on-full-node-with-erdma")
+			nt = true // a requested feature the node has no slot for
+		case len(s.Attached) >= slots:
+			c.Label("trunk:asked-on-full-node")
+			nt = true
+		default:
+			c.Label("trunk:slot-free")
+		}
+		if base.TrunkErr != "" {
+			c.Label("trunk:create-failed")
+		} else if len(base.Created) > 0 {
+			c.Label("trunk:created")
+		}
+	}
 	if nt {
 		c.NonTrivial()
 	}
@@ -425,6 +577,18 @@ func c19RunPool(c *vt.Ctx, s c19PoolScenario) {
 
 	// ---- features (identical for both computations: they do not depend on the ratio)
 	for _, o := range []c19PoolOut{base, got} {
+		// interface slots: what was attached plus what initTrunk created
+		if o.Held > slots && o.Held > len(s.Attached) {
+			c.Fatalf("initTrunk: the node holds %d secondary interfaces (attached before %v, created %v, trunk %q), the instance type can attach %d",
+				o.Held, s.Attached, o.Created, o.TrunkID, slots)
+		}
+		// no free slot and no trunk among the attached interfaces: the instance cannot
+		// carry a trunk, so member capacity must not be advertised (setupENIManager
+		// annotates on a trunk id, runDevicePlugin serves MaxMemberENI on the flag)
+		if o.TrunkRan && o.TrunkErr == "" && !o.TrunkPresent && len(s.Attached) >= slots && (o.TrunkID != "" || o.Trunking) {
+			c.Fatalf("initTrunk: all %d attachable interfaces are in use (%v) and none is a trunk, yet trunking stays on (trunk %q, enable_eni_trunking %v, MaxMemberENI %d)",
+				slots, s.Attached, o.TrunkID, o.Trunking, o.Pool.MaxMemberENI)
+		}
 		if o.V6On && s.V6 == 0 {
 			c.Fatalf("IPv6 enabled (stack %q) on an instance type without IPv6 addresses", s.IPStack)
 		}
